@@ -188,15 +188,15 @@ def nontrivial(case, model):
 
 def streams(ctx):
     n = 6000 if ctx.tier == "quick" else 150000
-    ex = base.exhaustive_small()
+    ex = base.exhaustive_small(ctx.tier != "quick")
     cases = ex + [base.gen_svc_case(ctx.rng, True) for _ in range(n)]
     s1 = Stream("svc12", "svc", cases, monitor=monitor_svc, nontrivial=nontrivial, shrink=base.shrink_svc,
-                compare=base.compare, finding_key=lambda c, i, m: why_svc(c, i, m),
+                compare=base.compare, to_coq=base.to_coq_svc, coq_imports=base.COQ_IMPORTS, finding_key=lambda c, i, m: why_svc(c, i, m),
                 describe="%d structured + %d random service trees, readiness-heavy ops" % (len(ex), n))
     nf = 6000 if ctx.tier == "quick" else 150000
     exf = base.exhaustive_fac_small()
     fcases = exf + [base.gen_fac_case(ctx.rng, True) for _ in range(nf)]
     s2 = Stream("fac12", "fac", fcases, monitor=monitor_fac, nontrivial=base.nontrivial_fac, shrink=base.shrink_fac,
-                compare=base.compare, finding_key=lambda c, i, m: why_fac(c, i, m),
+                compare=base.compare, to_coq=base.to_coq_fac, coq_imports=base.COQ_IMPORTS, finding_key=lambda c, i, m: why_fac(c, i, m),
                 describe="%d structured + %d random factory trees, then readiness-heavy ops" % (len(exf), nf))
     return [s1, s2]
